@@ -206,6 +206,9 @@ func growthForms(big string) []string {
 		"x = [] * " + big + "; len(x)",
 		"a = [1] * 100000; m = {}; for i = 2000 { m[i] = a }; m",
 		"a = 0 : 60000; m = {}; for i = 1500 { m[i] = a }; println(m)",
+		"a = 0 : 60000; m = {}; for i = 300 { m[i] = a }; len(str(m))",
+		"a = 0 : 60000; m = []; for i = 300 { m = m + [a] }; len(sprintf(\"%v\", m))",
+		"a = [1] * 100000; m = []; for i = 500 { m = m + [a] }; len(json(m))",
 		"join([\"\"] * 3000, \"-\" * 1000000)",
 		"join([\"ab\"] * 100000, \"0123456789\" * 10000)",
 		"len(join(0:200000, \"x\" * 100000))",
